@@ -45,3 +45,7 @@ pub use state::verif_hooks_tablets as verif_tablets_maintenance;
 #[cfg(scylla_verif)]
 #[allow(missing_docs)]
 pub use node::verif_hooks_flags as verif_node_flags;
+
+#[cfg(scylla_verif)]
+#[allow(missing_docs)]
+pub use state::verif_hooks_update_tablets as verif_update_tablets;
